@@ -17,7 +17,8 @@ SPEC_FORMS = ('old', 'forall', 'exists', 'implies', 'ite', 'pow2', 'typeis', 'is
               'list_eq_upto', 'alloc_lt', 'cls_of', 'isfresh', 'same_elems', 'str_contains', 'str_prefixof',
               'str_indexof', 'str_at', 'str_suffixof', 'Eq', 'wsonly', 'lstripped', 'val_eq',
               'U', 'app', 'splice', 'Bst', 'appb', 'Bin', 'appbin', 'is_binstr', 'binval',
-              'prefix_same', 'outside_same', 'chars_eq', 'allspaces', 'allchar', 'is_bool', 'oval')
+              'prefix_same', 'outside_same', 'chars_eq', 'allspaces', 'allchar', 'is_bool', 'oval',
+              'isdigits', 'str2int')
 
 
 def eval_call(eng, e, st, ctx):
@@ -254,6 +255,9 @@ def spec_form(eng, e, st, ctx):
         rng = z3.And(lo.z <= c, c < hi.z)
         if name == 'forall':
             inner = z3.Implies(z3.And([rng] + extra), bz) if extra else z3.Implies(rng, bz)
+            pats = index_patterns(inner, c)
+            if pats:
+                return SV(BOOL, z3.ForAll([c], inner, patterns=pats))
             return SV(BOOL, z3.ForAll([c], inner))
         return SV(BOOL, z3.Exists([c], z3.And([rng, bz] + extra)))
     if name == 'implies':
@@ -333,6 +337,10 @@ def spec_form(eng, e, st, ctx):
         return SV(INT, z3.IndexOf(ev1(a[0]).z, ev1(a[1]).z, ev1(a[2]).z))
     if name == 'str_at':
         return SV(STR, z3.SubString(ev1(a[0]).z, ev1(a[1]).z, I(1)))
+    if name == 'isdigits':
+        return SV(BOOL, z3.InRe(ev1(a[0]).z, z3.Plus(digits_re())))
+    if name == 'str2int':
+        return SV(INT, z3.StrToInt(ev1(a[0]).z))
     if name == 'isintlit':
         return SV(BOOL, E.s_isint(ev1(a[0]).z))
     if name == 'intlit':
@@ -402,6 +410,56 @@ def spec_form(eng, e, st, ctx):
         lst, i = ev1(a[0]), ev1(a[1])
         return SV(lst.ty.elem, z3.Select(eng.list_arr(st, lst), i.z))
     raise Unsupported('spec form %s' % name)
+
+
+def index_patterns(body, c):
+    """Triggers for a bounded quantifier over a list position: the array reads indexed exactly by the bound
+    variable (smallest first).  Keeps E-matching from choosing a trigger that never occurs in ground facts."""
+    found = {}
+    seen = set()
+    stack = [body]
+    while stack:
+        x = stack.pop()
+        if x.get_id() in seen:
+            continue
+        seen.add(x.get_id())
+        if z3.is_quantifier(x):
+            stack.append(x.body())
+            continue
+        if z3.is_app_of(x, z3.Z3_OP_SELECT) and x.arg(1).eq(c) and not _mentions(x.arg(0), c):
+            if not _has_bound_var(x.arg(0)):
+                found[x.get_id()] = x
+        stack.extend(x.children())
+    pats = sorted(found.values(), key=lambda t: len(str(t)))
+    return pats[:2]
+
+
+def _mentions(e, c):
+    seen = set()
+    stack = [e]
+    while stack:
+        x = stack.pop()
+        if x.get_id() in seen:
+            continue
+        seen.add(x.get_id())
+        if x.eq(c):
+            return True
+        stack.extend(x.children())
+    return False
+
+
+def _has_bound_var(e):
+    seen = set()
+    stack = [e]
+    while stack:
+        x = stack.pop()
+        if x.get_id() in seen:
+            continue
+        seen.add(x.get_id())
+        if z3.is_var(x):
+            return True
+        stack.extend(x.children())
+    return False
 
 
 _BA = z3.ArraySort(z3.IntSort(), z3.IntSort())
@@ -1150,6 +1208,11 @@ def str_method(eng, ctx, st, obj, name, args, kwargs):
             if r is not None:
                 yield st, r
                 return
+        if len(args) == 1 and args[0].ty in (STR, BYTES):
+            seps = z3.simplify(args[0].z)
+            if z3.is_string_value(seps) and len(seps.as_string()) >= 1:
+                yield st, str_split(eng, st, obj, seps.as_string())
+                return
         raise Unsupported('str.split')
     if name == 'encode':
         # latin-1 / utf-8 on code points < 256 resp. ascii: identity on the model's code points (L5)
@@ -1161,6 +1224,28 @@ def str_method(eng, ctx, st, obj, name, args, kwargs):
     if name == 'splitlines':
         raise Unsupported('splitlines')
     raise Unsupported('str method %s' % name)
+
+
+def str_split(eng, st, obj, sep):
+    """s.split(sep) for a literal non-empty separator: the first two pieces are characterised exactly, the
+    number of pieces is 1 / 2 / >= 3 according to the occurrences of sep (L5)."""
+    s = obj.z
+    k = len(sep)
+    r = eng.new_list(st, obj.ty)
+    n = fresh('nsplit', z3.IntSort())
+    arr = fresh('split', z3.ArraySort(z3.IntSort(), z3.StringSort()))
+    i = z3.IndexOf(s, S(sep), I(0))
+    rest = z3.SubString(s, i + k, z3.Length(s) - i - k)
+    j = z3.IndexOf(rest, S(sep), I(0))
+    st.assume(z3.And(n >= 1, (i < 0) == (n == 1),
+                     z3.Implies(i < 0, z3.Select(arr, 0) == s),
+                     z3.Implies(i >= 0, z3.And(z3.Select(arr, 0) == z3.SubString(s, 0, i),
+                                               (j < 0) == (n == 2),
+                                               z3.Implies(j < 0, z3.Select(arr, 1) == rest),
+                                               z3.Implies(j >= 0, z3.Select(arr, 1) == z3.SubString(rest, 0, j))))))
+    eng.list_set_raw(st, r, n, arr)
+    eng.set_ghost(st, 'joined', z3.StringSort(), r.z, fresh('joined', z3.StringSort()))
+    return r
 
 
 def list_method(eng, ctx, st, obj, name, args, kwargs):
